@@ -43,6 +43,10 @@ pub struct Req {
     pub acrm: Option<String>,
     pub acrh: Option<String>,
     pub kind: String,
+    /// the request's own `Origin`: 0 `https://example.com`, 1 none, 2 the configured origin, 3 another origin, 4 `null`
+    /// (the statement ties the response headers to the configured policy, not to who asks)
+    #[serde(default)]
+    pub origin: u8,
 }
 #[derive(Clone, Debug, Serialize, Deserialize)]
 pub struct Scenario {
@@ -113,7 +117,7 @@ pub fn generate(cfg: &RunCfg, out: &mut Outcome) -> Scenario {
         .map(|r| {
             let registered: Vec<String> = table.routes.iter().find(|e| appgen::greedy(std::slice::from_ref(e), &appgen::path_segments(&r.path)).is_some()).map(|e| e.methods.keys().cloned().collect()).unwrap_or_default();
             match t::weighted(&[4, 5, 1]) {
-                0 => Req { method: if r.method == "OPTIONS" { "GET".into() } else { r.method }, path: r.path, acrm: None, acrh: None, kind: format!("simple/{}", r.kind) },
+                0 => Req { method: if r.method == "OPTIONS" { "GET".into() } else { r.method }, path: r.path, acrm: None, acrh: None, kind: format!("simple/{}", r.kind), origin: 0 },
                 1 => {
                     let acrm = match t::weighted(&[5, 3, 1, 1]) {
                         0 if !registered.is_empty() => t::pick(&registered),
@@ -122,10 +126,14 @@ pub fn generate(cfg: &RunCfg, out: &mut Outcome) -> Scenario {
                         _ => t::pick(&["get", "TRACE", "FOO", ""]).to_string(),
                     };
                     let acrh = if t::chance(1, 2) { Some(t::pick(&["X-Custom", "content-type, x-a", "Authorization"]).to_string()) } else { None };
-                    Req { method: "OPTIONS".into(), path: r.path, acrm: Some(acrm), acrh, kind: format!("preflight/{}", r.kind) }
+                    Req { method: "OPTIONS".into(), path: r.path, acrm: Some(acrm), acrh, kind: format!("preflight/{}", r.kind), origin: 0 }
                 }
-                _ => Req { method: "OPTIONS".into(), path: r.path, acrm: None, acrh: None, kind: format!("options/{}", r.kind) },
+                _ => Req { method: "OPTIONS".into(), path: r.path, acrm: None, acrh: None, kind: format!("options/{}", r.kind), origin: 0 },
             }
+        })
+        .map(|mut r: Req| {
+            r.origin = t::weighted(&[2, 2, 2, 2, 1]) as u8;
+            r
         })
         .collect();
     Scenario { policy, app, reqs }
@@ -235,6 +243,7 @@ fn execute(sc: &Scenario, out: &mut Outcome) {
     let obs: Rc<RefCell<Vec<Result<Resp, RecvErr>>>> = Rc::new(RefCell::new(Vec::new()));
     let o = obs.clone();
     let reqs = sc.reqs.clone();
+    let policy_origin = sc.policy.origin.clone();
     simcore::spawn_task("client", "client", async move {
         let mut c: Option<Client> = None;
         for r in &reqs {
@@ -245,7 +254,14 @@ fn execute(sc: &Scenario, out: &mut Outcome) {
                 }
             }
             let cl = c.as_mut().unwrap();
-            let mut s = format!("{} {} HTTP/1.1\r\nHost: s\r\nOrigin: https://example.com\r\n", r.method, r.path);
+            let origin_line = match r.origin {
+                1 => String::new(),
+                2 if policy_origin != "*" => format!("Origin: {policy_origin}\r\n"),
+                3 => "Origin: https://other.example\r\n".to_string(),
+                4 => "Origin: null\r\n".to_string(),
+                _ => "Origin: https://example.com\r\n".to_string(),
+            };
+            let mut s = format!("{} {} HTTP/1.1\r\nHost: s\r\n{origin_line}", r.method, r.path);
             if let Some(m) = &r.acrm {
                 s.push_str(&format!("Access-Control-Request-Method: {m}\r\n"));
             }
